@@ -14,6 +14,7 @@ import asm as asmmod
 from prog import render
 
 AS_LIMIT = 2 << 30       # bytes of address space per worker
+SMALL_AS_LIMIT = 48 << 20   # ... when a small device is selected
 WATCHDOG = 10            # seconds per job
 
 
@@ -73,6 +74,23 @@ def valid_corpus(rnd):
     texts.append("ldi r16, " + "(" * 3000 + "1" + ")" * 3000 + "\n")           # deep nesting
     texts.append("ldi r16, " + "-" * 5000 + "1\n")
     texts.append("ldi r16, 1" + "+1" * 20000 + "\n")
+    for n in (300, 2000, 20000, 32000):
+        texts.append("ldi r16, " + "(" * n + "1" + ")" * n + "\n")
+        texts.append("ldi r16, " + "-" * n + "1\n")
+        texts.append("ldi r16, " + "!~" * (n // 2) + "1\n")
+        texts.append(".dq 1" + "+1" * n + "\n")
+        texts.append(".dq " + "low(" * (n // 4) + "1" + ")" * (n // 4) + "\n")
+        texts.append(".if 0\n" + "(" * n + "\n.endif\n.macro m\n" + "-" * n + "\n.endm\nnop\n")
+        texts.append(".db " + ", ".join(["1+2"] * (n // 4)) + "\n")
+    texts.append("".join(".equ a%d = a%d + a%d\n" % (i + 1, i, i) for i in range(60)) + ".equ a0 = 1\n.dq a60\n")
+    texts.append("".join(".equ a%d = a%d * a%d\n" % (i + 1, i, i) for i in range(60)) + ".equ a0 = 3\n.dq a60\n")
+    texts.append(".macro m\nm @0+@0\n.endm\nm 1\n")
+    texts.append(".macro m\nm @0, @0\n.endm\nm 1\n")
+    texts.append(".macro m\n.db @0\nm \"@0@0\"\n.endm\nm 1\n")
+    texts.append(".macro m\n.includepath \"rel\"\n.include \"nothing.inc\"\n.endm\nm\n")
+    texts.append(".org 0xFFFFFFFF\nnop\n")
+    texts.append(".eseg\n.org 0xFFFFFFFF\n.db 1, 2\n")
+    texts.append(".org 0xFFFFFFFF\njmp 0\n")
     texts.append(".eseg\n.byte 2000000000\n")                                 # reservation far beyond any device
     texts.append(".dseg\n.byte 2000000000\n.byte 2000000000\n.byte 2000000000\n")
     texts.append(".org 4000000000\nnop\n")
@@ -146,6 +164,18 @@ def check(prop, tier, seed):
             for j, s_ in enumerate(singles):
                 events.append({"ev": "case", "outcome": classify(sres[j])})
                 details.append([{"src": s_ + "\n", "outcome": classify(sres[j]), "text": sres[j].get("text", "")}])
+        # every head with at most one operand in every context (a skipped branch, an assembled branch, a macro body, ...)
+        ctx_texts = []
+        for pre_, post_ in tab["contexts"][1:]:
+            for h in heads:
+                ctx_texts.append(pre_ + h + post_)
+                for a in dct:
+                    ctx_texts.append(pre_ + h + " " + a + post_)
+        cres = run_jobs([{"k": "str", "id": j, "src": t, "nohex": True} for j, t in enumerate(ctx_texts)], watchdog=WATCHDOG, as_bytes=AS_LIMIT)
+        for j, t in enumerate(ctx_texts):
+            oc = classify(cres[j])
+            events.append({"ev": "case", "outcome": oc})
+            details.append([{"src": t, "outcome": oc, "text": cres[j].get("text", "")}])
         nprod = sum(e.get("count", 1) for e in events)
         # multi-line: token soups and mutations of valid programs
         texts = soups(rnd, heads, dct, 4000 if tier == "quick" else 100000)
@@ -161,6 +191,22 @@ def check(prop, tier, seed):
                 slow += 1
             events.append({"ev": "case", "outcome": oc})
             details.append([{"src": t if len(t) < 2000 else t[:2000] + "...", "outcome": oc, "text": mres[j].get("text", "")}])
+        # memory in proportion to the device: with a small device selected, reservations, origins and data far beyond its
+        # memories must be refused within a small address space (the worker itself needs about 20 MiB of it)
+        hogs = []
+        for dev in ("ATtiny2313", "ATtiny13", "ATmega48", "AT90S1200"):
+            for body in (".eseg\n.byte 0x2000000\n", ".eseg\n.byte 0x1000000\n.byte 0x1000000\n.byte 0x1000000\n", ".dseg\n.byte 0x7fffffff\n",
+                         ".org 0x2000000\nnop\n", ".eseg\n.org 0x2000000\n.db 1\n", ".eseg\n.db 1\n.cseg\nnop\n.eseg\n.byte 0x3000000\n",
+                         ".macro m\n.eseg\n.byte 0x2000000\n.endm\nm\n", ".org 0x1000000\n.db \"x\"\n.org 0x2000000\n.dw 1\n"):
+                hogs.append(".device %s\n%s" % (dev, body))
+        hres = run_jobs([{"k": "str", "id": j, "src": t, "nohex": True} for j, t in enumerate(hogs)], watchdog=WATCHDOG, as_bytes=SMALL_AS_LIMIT, workers=4)
+        for j, t in enumerate(hogs):
+            oc = classify(hres[j])
+            if oc == "abort":
+                oc = "oom"
+            events.append({"ev": "case", "outcome": oc})
+            details.append([{"src": t, "outcome": oc, "text": "address space limited to %d MiB; %s" % (SMALL_AS_LIMIT >> 20, hres[j].get("text", ""))}])
+        texts = texts + hogs
         can = [{"ev": "case", "outcome": "panic"}, {"ev": "group", "head": heads[0], "first": 0, "arity": arity, "count": 3, "ok": 3, "err": 0, "other": []},
                {"ev": "group", "head": heads[0], "first": -1, "arity": arity, "count": 1, "ok": 0, "err": 0, "other": ["abort"]}]
         rejected, stats = validate_events(events + can, "Trace_Api", scratch)
@@ -184,10 +230,12 @@ def check(prop, tier, seed):
         v.coverage.update({
             "evaluations": nprod + len(texts), "distinct_nontrivial": nprod + len({t for t in texts if t.strip()}) - len(heads),
             "rule": "bounded-exhaustive: every single-line program `head op, ...` with up to %d operands from the %d-entry dictionary for each of the %d heads "
-                    "(Api!Heads x Api!Dict, exported by TLC; completeness of every group checked by TLC); plus %d multi-line texts: token soups, "
+                    "(Api!Heads x Api!Dict, exported by TLC; completeness of every group checked by TLC); every head with at most one operand in each of "
+                    "the contexts of Api!Contexts (skipped branch, assembled branch, .elif position, macro body, other segments, small devices); "
+                    "resource hogs under small devices in a 48 MiB address space; plus %d multi-line texts: token soups, "
                     "valid programs (repository fixtures and generated), seeded byte/token/line mutations of them up to 64 KiB, and hand-made "
                     "resource hogs; non-trivial = has at least one operand / is not blank; distinct counted on source text" % (arity, len(dct), len(heads), len(texts)),
-            "single_line_programs": nprod, "multi_line_texts": len(texts), "heads": len(heads), "dictionary": len(dct), "arity": arity,
+            "single_line_programs": nprod, "context_programs": len(ctx_texts), "small_device_resource_hogs": len(hogs), "multi_line_texts": len(texts), "heads": len(heads), "dictionary": len(dct), "arity": arity,
             "groups_judged": sum(1 for e in events if e["ev"] == "group"), "tlc": stats,
             "slower_than_5s": slow, "limits": {"address_space_bytes": AS_LIMIT, "watchdog_s": WATCHDOG},
             "rejected_events": len([i for i in rejected if i < len(events)]),
